@@ -1,6 +1,7 @@
 mod keyupdate;
 mod ranges;
 mod reasm;
+mod tparams;
 mod util;
 
 fn main() {
@@ -12,6 +13,8 @@ fn main() {
         "reasm-record" => reasm::record(rest),
         "ranges-replay" => ranges::replay(rest),
         "keyupdate-replay" => keyupdate::replay(rest),
+        "tparams-replay" => tparams::replay(rest),
+        "tparams-record" => tparams::record(rest),
         _ => {
             eprintln!("unknown command {cmd}");
             std::process::exit(2);
